@@ -138,6 +138,7 @@ def asCmd (j : Json) : R (Cmd Expr) := do
     return .measure ms (vs.map .num)
   if let .ok v := j.getObjVal? "prepare" then return .prepare (← v.getNat?)
   if let .ok v := j.getObjVal? "use" then return .use (← asExpr v)
+  if let .ok v := j.getObjVal? "useArr" then return .useArr (← (← v.getArr?).toList.mapM asExpr)
   throw "bad command"
 
 def tcmdJson (c : TCmd) : Json :=
